@@ -16,10 +16,10 @@ import (
 )
 
 type Origin struct {
-	Kind string    // param | const | field | alloc | call | global | freevar | nil | unknown | custom kinds
-	Name string    // parameter name, field name "T.f", callee qualified name, ...
-	Val  ssa.Value // the leaf value
-	Path []string  // transparent steps crossed on the way (outermost first)
+	Kind string      // param | const | field | alloc | call | global | freevar | nil | unknown | custom kinds
+	Name string      // parameter name, field name "T.f", callee qualified name, ...
+	Val  ssa.Value   // the leaf value
+	Path []string    // transparent steps crossed on the way (outermost first)
 	Via  []*ssa.Call // the transparent / inlined calls crossed on the way (outermost first)
 }
 
@@ -37,7 +37,7 @@ type FlowOpts struct {
 	// Transparent: for a call, the argument values whose origins the result
 	// inherits (nil = the call is a leaf of kind "call").
 	Transparent func(ci *CallInfo) []ssa.Value
-	MaxDepth int
+	MaxDepth    int
 	// Alias: follow only what can share a backing store (append aliases its
 	// first argument only; string<->[]byte conversions copy).
 	Alias bool
